@@ -37,7 +37,20 @@ def run(c):
         "address families: IPv6 addresses of MX hosts (fd00:c05::n) are carried to the loopback server of the same number by the harness's "
         "dialer, which stands for the network; A and AAAA RRsets of one name share one AD bit; a host without ANY address record "
         "(the real code answers 'no such host', a permanent error) is outside the generated world",
-        "`C05 via`: the queue's FIRST attempt is observed (in-memory meta-data; max_tries 1); retries from the spool and restarts are C01's; "
+        "crashing lookups: a panic is injected through the Deadline() method of the context handed to AddRcpt (the resolver library reads "
+        "it for every exchange, in the lookup goroutine; the stage is read off that goroutine's own stack); crash cases have one MX candidate per "
+        "domain and a context per AddRcpt call, which the harness ends (deadline exceeded) when the crashed discovery has left the delivery "
+        "waiting in daneDelivery.CheckConn (goroutine dumps) — on the unchanged tree that wait only ends with the context; in the model a "
+        "crashed lookup is a failed lookup (MX.crashedAt)",
+        "configuration: the mx_auth block of every case is generated as directive TEXT and goes through cfgparser.Read, config.Map, "
+        "PolicyGroup.Init and the Init of every policy module; words are byte strings as the lexer hands them over (quoting is the "
+        "lexer's business); the level a word documents is that of its letters in lower case (junk around the word stripped) — a "
+        "configuration is either refused at Init or enforces that level; the mtasts cache directive is always `cache ram`",
+        "`C05 via`: the queue's FIRST attempt is observed (in-memory meta-data; max_tries 1); `C05 retry`: max_tries 2, the world (servers, "
+        "DNS content, remote target with an empty pool) is replaced between the first attempts and the attempts from the spool; the "
+        "queue's unexported delays (initialRetryTime, postInitDelay) are set to 0 by reflection, an attempt from the spool is held in "
+        "front of the remote target until the world has changed, attempts in the second world run one message after the other; WHICH "
+        "recipients are retried is the queue's business (C01) — model and harness agree on 'those with a temporary error'; "
         "the harness plays the SMTP endpoint for the real msgpipeline (writes TLS-Required / REQUIRETLS / SMTPUTF8 into its MsgMetadata "
         "object before Body), the quarantine decision comes from a scripted check through msgpipeline's own applyResults",
     ]
@@ -47,7 +60,8 @@ def run(c):
         "shuffled config block (mtasts, sts_preload, dane, dnssec, local_policy with every min level), override / relaxed_requiretls / reuse limit "
         "0,1,10; per-MX facts on scripted go-smtp servers at 127.0.0.1-3 (STARTTLS offered / stripped / handshake failure / command refused; "
         "generated chains: valid / unknown issuer / wrong name; REQUIRETLS on/off; down), loopback DNS server with AD control per RRset and TLSA "
-        "EE-match / TA-match / mismatch / unusable / SERVFAIL / none (+ delayed answers); MX host names that are CNAME aliases (signed / unsigned "
+        "EE-match / TA-match / mismatch / unusable / SERVFAIL / none (+ delayed answers; + a PANIC inside the resolver's lookups of an MX's "
+        "TLSA discovery, at the address / CNAME / TLSA stage); MX host names that are CNAME aliases (signed / unsigned "
         "CNAME RRset, signed / unsigned canonical zone, CNAME-type query failing) with independent TLSA outcomes at the canonical and at the "
         "initial name (RFC 7672 2.2.2: which base domain is consulted in which order); injected MTA-STS fetcher (absent/none/testing/enforce x "
         "listed); 1-2 MX candidates; server chains of 2-3 certificates (end-entity certificate first; its issuer and/or the genuine MX's "
@@ -63,7 +77,12 @@ def run(c):
         "call order Start, AddRcpt, body-stage update of the source's MsgMetadata object, Body, Commit; front p: through the real "
         "msgpipeline with a scripted check that asks for quarantine at the connection / sender / recipient / body stage) with "
         "REQUIRETLS, TLS-Required: No, Quarantine and SMTPUTF8 changing between Start and the end of the body stage, observed at the "
-        "remote target's Start (meta-data handed over) and at the servers (SMTPUTF8 parameter too); distinct = distinct histories",
+        "remote target's Start (meta-data handed over) and at the servers (SMTPUTF8 parameter too); plus `C05 retry`: the same through a "
+        "queue with max_tries 2 whose first attempts run in one world (mostly MX down / STARTTLS answered 454) and whose attempts from the "
+        "spool run in ANOTHER world (plaintext-only / unverifiable certificate / unsigned MX RRset), retried by the same instance, by an "
+        "instance restarted on the spool, or first attempted after a restart (queue closed between Body and Commit); plus configurations "
+        "whose min_tls_level / min_mx_level arguments are spelled Capitalised / UPPER / mixed / with junk around them / left out, the "
+        "policy block of EVERY case built from generated directive text by the real configuration path; distinct = distinct histories",
         explanation="theorems over all policy lists, fact assignments and histories of any length; model tied to connect.go / remote.go / security.go / "
         "pool.go by differential histories; monitor evaluates the property from scripted ground truth and what the servers received",
         search=search,
